@@ -386,6 +386,28 @@ func TestCheck(t *testing.T) {
 		msg := append([]byte{byte(1 + rng.UintN(11)), 9, 8, 7, byte(code >> 8), byte(code), byte(len(v) >> 8), byte(len(v))}, v...)
 		judge(r, "name-boundary", -1, msg)
 	}
+	// (5b) one name list after another of the same length and the same checksum (reflabel.Colliding): each is read for
+	//      what it is, whatever was decoded before it
+	if r.Shard == 0 {
+		pairs := reflabel.Colliding()
+		for _, pr := range pairs {
+			for _, w := range [][]byte{pr.A, pr.B, pr.A} {
+				for _, code := range []int{24, 39, 56} {
+					v := w
+					switch code {
+					case 39:
+						v = append([]byte{1}, w...)
+					case 56:
+						v = append([]byte{0, 3, byte(len(w) >> 8), byte(len(w))}, w...)
+					}
+					judge(r, "name-collision", code, v)
+					msg := append([]byte{3, 9, 8, 7, byte(code >> 8), byte(code), byte(len(v) >> 8), byte(len(v))}, v...)
+					judge(r, "name-collision", -1, msg)
+				}
+			}
+		}
+		r.Set("checksum_colliding_name_lists", len(pairs))
+	}
 	// (6) relay chains of every depth 1..200 (the framing rules have no depth limit; 200 levels are 7.7 kB), made of
 	//     forward and reply headers, well-formed and with the innermost option cut by one octet
 	if r.Shard == 0 {
